@@ -62,6 +62,47 @@ CLAUSES = [
      "_counts(): min multiplicity 1..7 weighted to 4 and 5; sanity() fails closed if 4 or 5 is not drawn"),
 ]
 
+# Every raise / assert / try-except / special-case branch / dtype cast / exact float comparison of the anchored code
+# (infer_stype.py, MultiCategoricalTensorMapper.split_by_sep): site -> generator kind that reaches it -> oracle key.
+ERROR_PATHS = [
+    ("_is_timestamp: try/except (ValueError, ParserError, TypeError) per candidate format",
+     "families date / datex (accepted), strcat / multicat / text / bool+missing object columns (every format raises)",
+     "table:date:*, table:datex:*, table:strcat:* (a string column turning timestamp), known date key"),
+    ("_lst_is_all_type: assert isinstance(lst, list); isinstance(x, (int, float)) / float / str",
+     "families emb / seqnum / strlist; boundaries list_one_int_first/last", "table:emb:*, table:seqnum:*, table:strlist:*"),
+    ("_lst_is_free_of_nan_and_inf: math.isnan / math.isinf", "seqnum 'nan' / 'inf', boundaries list_one_nan_last, "
+     "list_one_inf_first", "table:seqnum:sequence_numerical->embedding"),
+    ("has_nan = ser.isna().any(); dropna", "missing kinds None / np.nan / float('nan') / pd.NA in every family",
+     "variant:<family>, table:*"),
+    ("len(ser) == 0 -> None", "family allmissing, boundaries size0, df_all_missing", "table:allmissing:*, df:table"),
+    ("isinstance(ser.iloc[0], list) AFTER dropna; `if not isinstance(lst, list): return None`",
+     "list families with a leading missing cell (missing_first); the early return needs a mixed column: stream "
+     "'mixed' (outside the quantifier, run but not judged)", "variant:emb / seqnum / strlist"),
+    ("length == len(lst) (exact comparison with the FIRST list)", "boundaries list_first/last_longer/shorter", "table:seqnum:*"),
+    ("is_numeric_dtype / is_bool_dtype / is_float_dtype dispatch", "every numeric backing (int64, Int64, int32, int8, "
+     "uint8, float64, Float64, float32, bool, boolean)", "table:int / float / bool:*, Coq dtype_preds"),
+    ("(ser % 1 == 0).all()  -- exact float comparison, only with has_nan",
+     "families wholefloat (2^53 .. 1e300, -0.0), floatinf (inf % 1 is NaN), float (one non-integral value + NaN), "
+     "int + missing; boundaries wholefloat_*, float_inf_nan, float_signed_zero_*",
+     "table:wholefloat:*, table:floatinf:*, table:float:*, table:int:*"),
+    ("_min_count(ser) > cat_min_count_thresh (numeric, string and not-string branch)",
+     "multiplicities 1..7, boundaries *_const_3..6, *_tie_5_5, *_5_4", "table:int / strcat / wholefloat:*; make (threshold_is_4_vs_5)"),
+    ("is_bool_dtype(ser) or infer_dtype(ser) == 'boolean' (object column of bools)", "family bool with missing cells "
+     "(None / NaN / pd.NA), boolean backing", "table:bool:*"),
+    ("`if not is_string_dtype(ser)` -> multicategorical / embedding", "only reachable with cells that are neither "
+     "strings nor lists nor numbers (tuples, ndarrays, mixed): outside the quantifier, reported in DESIGN 8", "-"),
+    ("isinstance(ser.iloc[0], (list, np.ndarray)) inside the string branch", "dead for string columns", "-"),
+    ("try/except Exception around split_by_sep per separator; max(min_count_list or [0])",
+     "every string family (no separator raises on str cells: the except / `or [0]` arm is dead there); blank cells "
+     "(boundary tok_blank_cell) give an EMPTY exploded series whose min is NaN", "table:multicat:*, table:text:*"),
+    ("split_by_sep: None / pd.NA / NaN -> {-1}", "not reachable from inference (dropna first); covered by C01", "-"),
+    ("split_by_sep: row.strip() == '' -> set(); assert sep is not None; {cat.strip() ...}",
+     "multicat rows with padding, duplicates, blank cells; boundaries tok_ws_merge_5, tok_dup_in_row_4, tok_blank_cell",
+     "table:multicat:*"),
+    ("infer_df_stype: `if stype is not None`", "df cases with all-missing columns (first / last / all / none)",
+     "df:not-per-column, df:table"),
+]
+
 PROP = "C18"
 HEADER = "Require Import Coq.QArith.QArith PF.Gen.Tables PF.Model.Infer."
 MODEL_TARGETS = ["Model/Infer.vo"]
@@ -83,6 +124,8 @@ TRUSTED = [
     "harness/c18.py (generator, plain-Python decision table, Coq literal printer)",
 ]
 ASSUMPTIONS = [
+    "no oracle key of C18 demands a raise (the statement names none): raised:<family> and df:raised demand that "
+    "inference does NOT raise on a column of the decision table; the Coq model never predicts an exception",
     "columns are homogeneous (all non-missing cells of one kind); the model is not validated on mixed-kind "
     "object columns, nor on bool columns with missing cells (outside the property's quantifier)",
     "date strings are ISO-like dates pandas certainly parses, non-date strings are tokens it certainly rejects",
@@ -155,6 +198,40 @@ def gen_float(rng):
     cells = [_fl(rng, integral=rng.chance(0.3)) for _ in range(n)]
     cells[rng.randrange(n)] = _fl(rng)        # at least one non-integral value
     return _insert_missing(rng, cells)
+
+
+WHOLE_MAGNITUDES = [2 ** 53, 2 ** 62, 2 ** 63, int(1e19), -int(1e19), int(1e300), -(2 ** 63), 2 ** 64]
+
+
+def gen_wholefloat(rng):
+    """float columns whose values are all whole, at magnitudes around and beyond the int64 range, with and
+    without NaN, 2-3 distinct values with multiplicities on both sides of the threshold (numeric representation:
+    `ser % 1 == 0`, value_counts on floats; no integer cast may be involved)"""
+    base = float(rng.pick(WHOLE_MAGNITUDES))
+    k = rng.randint(1, 3)
+    vals = []
+    for j in range(1, k + 1):
+        v = base * j                                  # exact: a small multiple of a double
+        if v in (math.inf, -math.inf) or v != base * j:
+            continue
+        vals.append(["f", int(v), 1])
+    if rng.chance(0.15):
+        vals.append(["f", 0, 1, "neg"])               # -0.0
+    vals = [list(x) for x in sorted({tuple(v) for v in vals}, key=str)]
+    cells = _rep(rng, vals, _counts(rng, len(vals)))
+    if rng.chance(0.6):
+        cells.insert(rng.pick([0, len(cells), rng.randint(0, len(cells))]), ["m", "nan"])
+    return cells
+
+
+def gen_floatinf(rng):
+    """float columns that contain +-inf (inf % 1 is NaN: never whole), with and without NaN"""
+    cells = [_fl(rng, integral=True) for _ in range(rng.randint(1, 6))]
+    for _ in range(rng.randint(1, 2)):
+        cells.insert(rng.randint(0, len(cells)), ["finf", rng.pick([1, -1])])
+    if rng.chance(0.5):
+        cells.insert(rng.randint(0, len(cells)), ["m", "nan"])
+    return cells
 
 
 def gen_int(rng):
@@ -355,8 +432,8 @@ def gen_mixed(rng):
         rng.shuffle(cells)
     elif k == 2:    # lists with mixed elements
         cells = [["l", [["s", rng.pick(VOCAB)], ["i", 1]]], ["l", [["f", 3, 2]]]]
-    else:           # integral floats with a missing cell (pandas' image of an int column): not judged by the
-        # oracle (the code's deliberate `has_nan and integral` rule), but part of the correspondence
+    else:           # small whole floats with a missing cell (pandas' image of an int column): judged by the
+        # "repeated integers" row of the table and part of the correspondence
         vals = [_fl(rng, integral=True) for _ in range(rng.randint(1, 2))]
         vals = [list(x) for x in sorted({tuple(v) for v in vals})]
         cells = _rep(rng, vals, _counts(rng, len(vals))) + [_miss(rng)]
@@ -365,12 +442,12 @@ def gen_mixed(rng):
 
 
 FAMILIES = {
-    "float": gen_float, "int": gen_int, "bool": gen_bool, "date": gen_date, "strcat": gen_strcat,
+    "float": gen_float, "wholefloat": gen_wholefloat, "floatinf": gen_floatinf, "int": gen_int, "bool": gen_bool, "date": gen_date, "strcat": gen_strcat,
     "multicat": gen_multicat, "text": gen_text, "emb": gen_emb, "seqnum": gen_seqnum,
     "strlist": gen_strlist, "allmissing": gen_allmissing,
 }
 SERIES_ONLY = {"datex": gen_datex, "mixed": gen_mixed}
-FAM_WEIGHTS = [(2, "float"), (4, "int"), (1, "bool"), (2, "date"), (4, "strcat"), (5, "multicat"),
+FAM_WEIGHTS = [(2, "float"), (1.5, "wholefloat"), (0.5, "floatinf"), (4, "int"), (1, "bool"), (2, "date"), (4, "strcat"), (5, "multicat"),
                (2, "text"), (2, "emb"), (2, "seqnum"), (2, "strlist"), (1, "allmissing")]
 
 
@@ -426,6 +503,8 @@ def gen_series_case(rng, tier, fam=None):
         backing = rng.pick(opts)
     elif fam == "float" and rng.chance(0.4):
         backing = rng.pick(["Float64"] + ([] if has_m else ["float32"]))
+    elif fam == "wholefloat" and rng.chance(0.3):
+        backing = "Float64"
     elif fam == "bool" and rng.chance(0.4):
         backing = "boolean"
     fixed = backing in ("int32", "int8", "uint8", "float32")            # no missing cell can be added
@@ -549,6 +628,10 @@ BOUNDARIES = [
     ("int_const_3/4/5/6", "one distinct integer occurring thresh-1, thresh, thresh+1, thresh+2 times"),
     ("int_tie_5_5, int_5_4, int_5_6, int_4_4", "two integers: tie at thresh+1, one exactly on / below the threshold"),
     ("str_const_4/5, str_tie_5_5, str_5_4", "the same for repeated strings, every string dtype"),
+    ("wholefloat_<2^53 | 2^62 | 2^63 | 2^64 | 1e19 | -1e19 | -2^63 | 1e300>_{nan_3_3, nan_5_5, 5_5}",
+     "whole floats around and beyond the int64 range: with NaN below / above the threshold, without NaN"),
+    ("float_inf_nan, float_neg_inf, float_signed_zero_merge_5, float_signed_zero_4",
+     "inf in a float column (never whole); -0.0 and 0.0 are ONE value (3 + 2 = thresh+1, 2 + 2 = thresh)"),
     ("float_const_5, float_integral_5, float_one_nonintegral_nan",
      "floats repeated thresh+1 times; integral floats without NaN; exactly one non-integral value plus NaN"),
     # tokens
@@ -630,6 +713,18 @@ def gen_boundary_cases(rng):
     add("float_const_5", "float", [Fl(5, 2)] * 5, missing=False)
     add("float_integral_5", "float", [Fl(2)] * 5 + [Fl(3)] * 5, missing=False)
     add("float_one_nonintegral_nan", "float", [Fl(2)] * 5 + [Fl(5, 2)] + [["m", "nan"]], missing=False)
+    # numeric representation: whole floats around and beyond the int64 range, inf, -0.0
+    for m in WHOLE_MAGNITUDES:
+        v1, v2 = ["f", int(float(m)), 1], ["f", int(float(m) * 2), 1]
+        tag = "wholefloat_%s" % ("2^%d" % (abs(m).bit_length() - 1) if abs(m) & (abs(m) - 1) == 0 else "%.0e" % m)
+        tag = ("neg_" if m < 0 else "") + tag.replace("-", "").replace("+", "")
+        add(tag + "_nan_3_3", "wholefloat", [v1] * 3 + [v2] * 3 + [["m", "nan"]], missing=False)
+        add(tag + "_nan_5_5", "wholefloat", [["m", "nan"]] + [v1] * 5 + [v2] * 5, missing=False)
+        add(tag + "_5_5", "wholefloat", [v1] * 5 + [v2] * 5, missing=False)
+    add("float_inf_nan", "floatinf", [Fl(2)] * 5 + [["finf", 1]] * 5 + [["m", "nan"]], missing=False)
+    add("float_neg_inf", "floatinf", [Fl(2)] * 5 + [["finf", -1]], missing=False)
+    add("float_signed_zero_merge_5", "wholefloat", [["f", 0, 1, "neg"]] * 3 + [Fl(0)] * 2 + [["m", "nan"]], missing=False)
+    add("float_signed_zero_4", "wholefloat", [["f", 0, 1, "neg"]] * 2 + [Fl(0)] * 2 + [["m", "nan"]], missing=False)
     # tokens: a, b in `base` rows each; the rarest token x in exactly 4 / 5 rows
     def tok(rows):
         return [S_(r) for r in rows]
@@ -730,7 +825,9 @@ def py_elem(e):
 def py_cell(c):
     t = c[0]
     if t == "f":
-        return c[1] / c[2]
+        return -0.0 if len(c) > 3 else c[1] / c[2]          # ["f", 0, 1, "neg"] is -0.0
+    if t == "finf":
+        return math.inf * c[1]
     if t == "i":
         return int(c[1])
     if t == "b":
@@ -909,12 +1006,16 @@ def ref_infer(cells):
         return OUT
     if kinds == {"b"}:
         return "categorical"
-    if kinds <= {"i", "f"}:
+    if kinds <= {"i", "f", "finf"}:
+        if "finf" in kinds:
+            return "numerical"                          # a float column (inf is not a whole number)
         nums = [Fraction(c[1], c[2]) if c[0] == "f" else Fraction(c[1]) for c in vals]
         if "f" in kinds:
             if any(x.denominator != 1 for x in nums) or not has_missing:
                 return "numerical"                      # float columns infer numerical
-            return OUT                                   # integral floats + NaN: pandas' image of an int column
+            # whole floats + NaN: the ONLY way pandas can hold an integer column with missing cells (the very same
+            # Series as [1, 2, None]); the row "repeated integers" of the table applies, to the VALUES as they
+            # are (Props/C18.v integral_floats_depend_on_nan) -- never to a cast of them
         return "categorical" if _min_mult(nums) > REF_THRESH else "numerical"
     if kinds == {"d"}:
         return "timestamp"
@@ -1249,8 +1350,16 @@ def extra(tier, rng):
 
 
 # ----------------------------------------------------------------- Coq side
+def cz_big(n):
+    """huge integers (whole doubles up to 1e300) as mantissa * 2^k: Coq parses long decimal literals slowly"""
+    if abs(n) < 2 ** 64:
+        return C.cz(n)
+    k = (abs(n) & -abs(n)).bit_length() - 1
+    return f"(Z.shiftl {C.cz(n >> k if n > 0 else -((-n) >> k))} {k}%Z)"
+
+
 def cq(num, den):
-    return f"(Qmake {C.cz(num)} {den}%positive)"
+    return f"(Qmake {cz_big(num)} {den}%positive)"
 
 
 def coq_elem(e):
@@ -1270,6 +1379,8 @@ def coq_cell(c):
     t = c[0]
     if t == "f":
         return f"Float {cq(c[1], c[2])}"
+    if t == "finf":
+        return f"FloatInf {C.cbool(c[1] < 0)}"
     if t == "i":
         return f"Int {C.cz(c[1])}"
     if t == "b":
@@ -1294,8 +1405,7 @@ def coq_outcome(o):
 
 
 def _in_model_domain(cells):
-    kinds = {c[0] for c in cells if c[0] != "m"}
-    return ref_infer(cells) is not OUT or kinds == {"f"}      # integral floats + NaN: modelled, not judged
+    return ref_infer(cells) is not OUT
 
 
 def coq_series_term(cells, o, preds=True):
